@@ -133,7 +133,10 @@ func tokensOf(e *xp.E) []string {
 func lrSentence(t *rapid.T) []string {
 	pick := func(n int, l string) int { return rapid.IntRange(0, n-1).Draw(t, l) }
 	id := func() string {
-		return []string{"a", "b", "p:c", "q:d", "e-1", "f.g", "_h", "current", "x1"}[pick(9, "id")]
+		// the last entries are not RFC 6020 identifiers (ASCII letters, digits, "_", "-", "." only) although XML would
+		// take them as names
+		return []string{"a", "b", "p:c", "q:d", "e-1", "f.g", "_h", "current", "x1", "a", "b", "p:c", "q:d", "e-1", "f.g", "_h", "current", "x1",
+			"caf\u00e9", "b\u00b7c", "p:caf\u00e9", "na\u00efve:x", "a\u0301", "x\u203fy", "\u00e9a", "a\u65e5"}[pick(26, "id")]
 	}
 	pred := func() []string {
 		out := []string{"[", id(), "=", "current", "(", ")", "/"}
